@@ -39,5 +39,20 @@ PROPS["C09"] = {
     "exhaustive": False,
 }
 
+PROPS["C20"] = {
+    "budget": {"quick": 45, "thorough": 420},
+    "rule": "values generated over bool/int/finite float/string/()/array/tuple to depth 3 with boundary scalars (MIN/MAX int, -0.0, subnormals, 1e308, 1e21/1e-7 exponent switch points, "
+            "strings over quotes, backslashes, every C0/C1 control, U+2028, combining marks, non-BMP, NUL before a digit); each value is printed with its Debug rendering and read back by "
+            "Variable::from_str and by Code::parse(..).exec() (program route skipped for values containing MIN_INT); the result must be canonically equal, have the same type and be == to the original. "
+            "Integer literal texts (0b/0o/0x/decimal, underscores, leading zeros, 63/64/65-bit magnitudes) are checked against u128 parsing: in range -> that value, otherwise IntegerOverflow. "
+            "distinct_nontrivial = distinct printed texts / literal texts.",
+    "assumptions": COMMON_ASSUME + ["expected value of a printed text = the value it was printed from (harness keeps the original); the replay reader understands Rust Debug escapes"],
+    "floors": {"quick": {"evaluations": 300000, "shape:int_literal_forms": 12, "shape:value_features": 12}, "thorough": {"evaluations": 3000000, "shape:int_literal_forms": 12, "shape:value_features": 12}},
+    "technique": "runtime round-trip monitor: print -> parse (two routes) -> compare with the original value and type; integer literal forms vs u128 oracle",
+    "level_text": "Hundreds of thousands of generated first-order values and integer literal spellings are pushed through the real printer and both real readers; any change of value, type or acceptance is reported. Exploration over a generated value space with all boundary scalars listed explicitly.",
+    "level_note": "trusts the harness's canonical value comparison; values deeper than 3 levels are not generated",
+    "exhaustive": False,
+}
+
 # properties deliberately not claimed (reason each); anything else missing from PROPS is simply not built yet
 NOT_APPLICABLE = {}
